@@ -104,7 +104,11 @@ RULE = ("for each attrs class of swh.model.model, each SWHID class and Immutable
         "objects used for two constructions (must be equal, hash alike, be one set member) and once separately built (model "
         "and implementation must agree; equal => equal hash); 10 % of the str / bytes values and mapping keys carry a string / "
         "bytes constant harvested from the source of the repository under test (harness/gitobj_common.source_tokens).  "
-        "FOREIGN containers (implementation only: refuse, or be immune and equal to the plain twin): MappingProxyType / UserDict "
+        "twins 'unorderable-keys' (implementation only): equal frozen mappings - bare and as a value inside metadata - whose "
+        "keys cannot be compared with `<` and have EQUAL hashes under the run's hash seed ('' / b'' / 0, a str and the bytes of "
+        "the same text, tuples of those, -1 / -2 with a str, frozenset() / () / str, pairs found by search), alone or mixed with "
+        "orderable keys, values of different hashes, in two insertion orders: both hashable with equal hashes, or TypeError on "
+        "both; FOREIGN containers (implementation only: refuse, or be immune and equal to the plain twin): MappingProxyType / UserDict "
         "/ ChainMap / custom Mapping / Mapping over items() / ImmutableDict built from one of these, as ImmutableDict argument, "
         "as metadata / branches, as the dictionary of from_dict; custom Sequence for tuple-typed fields and extra_headers; "
         "array.array / memoryview for bytes fields - all views of a container the caller mutates afterwards.  "
@@ -143,6 +147,8 @@ ASSUMPTIONS = [
     "object.__setattr__); DirectoryEntry.DIR_ENTRY_TYPE_TO_SWHID_OBJECT_TYPE is a mutable class-level dict reachable from "
     "every instance (mutating it changes swhid() of all entries, not their content / == / hash); QualifiedSWHID.path accepts "
     "and copies any bytes-like; ImmutableDict == an equal plain dict (which is unhashable)",
+    "mappings with keys of several types are checked on the implementation only (the model's mapping keys are atoms of one "
+    "type, ordered by their encoding); on /repo hash() of such a mapping raises TypeError from sorted(): unhashable on both sides",
     "the SWHID converters' alternative spellings and pairs of different SWHID classes are checked on the implementation "
     "only (the model has one class per twin pair and treats converters of scalar fields as the identity on canonical values)",
     "transport = pickle (protocols 0-5) and copy/deepcopy; the receiving process differs by its string-hash seed only "
@@ -421,6 +427,8 @@ def build(spec, kept, frozen=None, plain=False):
         return ba
     if t == "noarg":
         return NOARG
+    if t == "fs":
+        return frozenset(build(x, kept, frozen, plain) for x in spec[1])
     if t == "mp":                                       # a read-only VIEW / another Mapping over a dict the caller keeps
         d = {}
         kept.append(d)
@@ -1469,6 +1477,73 @@ def foreign_container_cases(rng, cname):
     return out
 
 
+def colliding_key_groups():
+    """groups of DISTINCT keys that cannot be ordered with `<` among themselves and (checked here, under this run's hash
+    seed) have EQUAL hashes: "" / b"" / 0, a str and the bytes of the same ASCII text, tuples of those; plus -1 / -2 (equal
+    hashes, orderable: mixed with a str they make sorted() fail) and a few str / bytes pairs found by search"""
+    groups = [[["s", ""], ["b", ""], ["i", 0]],
+              [["s", "a"], ["b", b"a".hex()]], [["s", "key"], ["b", b"key".hex()]], [["s", "HEAD"], ["b", b"HEAD".hex()]],
+              [["t", [["s", ""]]], ["t", [["b", ""]]], ["t", [["i", 0]]]],
+              [["t", [["s", "a"], ["i", 1]]], ["t", [["b", b"a".hex()], ["B", True]]]],
+              [["i", -1], ["i", -2], ["s", "z"]],
+              [["fs", []], ["s", "f"], ["t", []]]]
+    # str / bytes of equal hash found by search over small strings (in CPython the same ASCII text always collides)
+    import itertools
+    seen = {}
+    for n in (1, 2):
+        for tup in itertools.product("abcxyz01", repeat=n):
+            w = "".join(tup)
+            seen.setdefault(hash(w), []).append(["s", w])
+            seen.setdefault(hash(w.encode()), []).append(["b", w.encode().hex()])
+    for h, ks in sorted(seen.items())[:6]:
+        if len(ks) >= 2 and len(set(k[0] for k in ks)) >= 2:
+            groups.append(ks[:2])
+    ok = []
+    for g in groups:
+        try:
+            vals = [build(k, []) for k in g]
+            if len(set(vals)) == len(vals):
+                ok.append(g)
+        except Exception:
+            pass
+    return ok
+
+
+def unorderable_key_cases(rng):
+    """equal frozen mappings whose keys cannot be sorted and collide in hash, in two insertion orders: both hashable with
+    equal hashes, or TypeError on both (on /repo: TypeError on both)"""
+    out = []
+    groups = colliding_key_groups()
+    g = list(rng.choice(groups))
+    if rng.random() < 0.5:
+        g += rng.choice(groups)
+    keys = []
+    for k in g:
+        if all(build(k, []) != build(k0, []) for k0 in keys):
+            keys.append(k)
+    if rng.random() < 0.5:       # mixed with ordinary, orderable keys
+        keys += [["s", "ordinary-%d" % i] for i in range(rng.choice([1, 2]))]
+    vals = rng.sample([["i", 1], ["i", 2], ["s", "v"], ["b", "00"], None, ["t", [["i", 3]]], ["i", 7], ["s", "w"], ["f", "2.5"]],
+                      len(keys))
+    items = [[k, v] for k, v in zip(keys, vals)]
+    other = items[::-1] if rng.random() < 0.5 else rng.sample(items, len(items))
+    if other == items and len(items) > 1:
+        other = items[::-1]
+    k1, k2 = rng.choice(["d", "I"]), rng.choice(["d", "I"])
+    out.append({"kind": "twins", "cls": "ImmutableDict", "variation": "unorderable-keys",
+                "args1": [["data", [k1, items]]], "args2": [["data", [k2, other]]]})
+    # ... and as a VALUE of a metadata mapping (the classes only accept str keys at the top level)
+    cname = rng.choice(["MetadataAuthority", "MetadataFetcher", "Release", "OriginVisitStatus"])
+    a = no_oneshot(gen_obj(rng, cname, hashable=True))
+    m1 = ["d", [[["s", "inner"], ["I", items]], [["s", "n"], ["i", 1]]]]
+    m2 = ["d", [[["s", "n"], ["i", 1]], [["s", "inner"], ["I", other]]]]
+    args1 = [[f, (m1 if f == "metadata" else v)] for f, v in a[2]]
+    args2 = [[f, (m2 if f == "metadata" else v)] for f, v in a[2]]
+    if builds(args1, cname) and builds(args2, cname):
+        out.append({"kind": "twins", "cls": cname, "variation": "unorderable-keys", "args1": args1, "args2": args2})
+    return out
+
+
 def swhid_spelling_cases(rng):
     """the SWHID converters accept several spellings of one value: enum member / its string value, CoreSWHID / its
     string, bytes path / percent-encoded str, (a, b) / "a-b".  Equal arguments, differently spelled -> equal objects"""
@@ -1624,6 +1699,8 @@ def gen(rng, tier):
             cases += foreign_container_cases(rng, cname)
     for _ in range(n_acc * 2):
         cases.append(accessor_case(rng, "ImmutableDict", "ctor"))
+    for _ in range(30 if tier == "quick" else 600):
+        cases += unorderable_key_cases(rng)
     for _ in range(4 if tier == "quick" else 100):
         cases += swhid_spelling_cases(rng)
         cases += foreign_container_cases(rng, "ImmutableDict")
@@ -1679,7 +1756,7 @@ def nontrivial(c):
     if c["kind"] == "twins":
         return c["variation"] in ("noneq-fields", "nested-noneq", "permuted", "dict-vs-idict",
                                   "equal-but-differently-spelled", "unusual-eq-shared", "unusual-eq-distinct",
-                                  "swhid-spelling") or (
+                                  "swhid-spelling", "unorderable-keys") or (
             c["variation"] == "same-objects" and any(v is not None and v[0] in ("I", "d") for _, v in c["args1"]))
     if c["kind"] == "perms":
         return len(c["items"]) >= 2
@@ -2692,7 +2769,7 @@ def model(c, resp):
 
 # ------------------------------------------------------------------ property on the implementation
 CALLER_OPS = ("set", "del", "clear", "app", "idx", "pop")
-IMPL_ONLY_VARIATIONS = ("swhid-spelling", "cross-class")
+IMPL_ONLY_VARIATIONS = ("swhid-spelling", "cross-class", "unorderable-keys")
 
 
 def oracle(c, ires, mres):
@@ -2797,7 +2874,8 @@ def oracle(c, ires, mres):
         if ires["eq12"] != ires["eq21"] or ires["eq12"] == ires["ne12"]:
             return "== is not symmetric / != is not its negation"
         if c["variation"] in ("same", "same-objects", "noneq-fields", "nested-noneq", "permuted", "dict-vs-idict",
-                              "equal-but-differently-spelled", "swhid-spelling", "unusual-eq-shared") and not ires["eq12"]:
+                              "equal-but-differently-spelled", "swhid-spelling", "unusual-eq-shared",
+                              "unorderable-keys") and not ires["eq12"]:
             return "objects built from equal arguments (%s) are not equal" % c["variation"]
         if ires["eq12"] and ires["h1"] != "U" and ires["h2"] != "U":
             if ires["h1"] != ires["h2"]:
@@ -2805,7 +2883,8 @@ def oracle(c, ires, mres):
             if not ires.get("dict_key") or not ires.get("set_member") or ires.get("set_size") != 1:
                 return "equal objects do not act as the same dict key / set member"
         if ires["eq12"] and c["variation"] in ("same", "same-objects", "equal-but-differently-spelled", "swhid-spelling",
-                                               "cross-class", "unusual-eq-shared", "unusual-eq-distinct") \
+                                               "cross-class", "unusual-eq-shared", "unusual-eq-distinct",
+                                               "unorderable-keys") \
                 and (ires["h1"] == "U") != (ires["h2"] == "U"):
             return "objects built from the same arguments: one hashable, one not"
         return None
